@@ -79,26 +79,32 @@ Theorem cssparse_lexer_tok_in_lex : forall d t b, lexer_tok d t b ->
 Proof. exact lexer_tok_in_lex. Qed.
 Print Assumptions cssparse_lexer_tok_in_lex.
 
-(* C08 (partial): a stylesheet whose lexer token list is a sequence of rulesets
-       (ws? selector-token)+ ws? '{' ( ws? ident ws? ':' (ws? value-token)+ ws? ';' )* ws? '}'      followed by  ws?
+(* C08 (partial): a stylesheet whose lexer token list is, in document order, a sequence of events (ev, WellFormed.v)
+       EOpen:   (ws? selector-token)+ ws? '{'
+       EDecl:   ws? ident ws? ':' (ws? value-token)+ ws? ';'
+       EClose:  ws? '}'
+   that nest properly (evs_ok: declarations and '}' only inside a ruleset, everything closed at the end; rulesets may
+   be nested to any depth), followed by ws?
    (ws: a Whitespace token; selector-/value-token: any token but whitespace, comment, '{', '}', ';', with brackets
-   and function parentheses balanced - toks_ok / lv_after; the first selector token is none of CDO, CDC, at-keyword,
-   custom-property name - sel_first; no comments)
-   yields exactly, for every rule in order,
+   and function parentheses balanced - toks_ok / lv_after; the first token of a top-level selector is none of CDO,
+   CDC, at-keyword, custom-property name - sel_first; the first token of a nested selector is an identifier, a hash,
+   ':' or '[' - nest_first; no comments)
+   yields exactly one unit per event, in order:
    - BeginRuleset with Values() = expected_sel: the selector tokens in order with a single space token exactly where
      the source has whitespace between two tokens neither of which is a combinator  , > + ~  and that are not inside
-     an attribute selector [ ] (whitespace before the first token and before '{' is dropped);
-   - one Declaration per declaration with the lower-cased property name and Values() = expected_vals: the value
-     tokens in order with a single space token exactly where the source has whitespace between two value tokens
-     neither of which is one of the punctuation bytes  , / : ! =  (whitespace before the first and after the last
-     value token, around ':' and ';', '{' and '}' is dropped);
+     an attribute selector [ ] (whitespace before the first token and before '{' is dropped) - the same rule for
+     top-level and nested rulesets (after fix dd2c98e);
+   - Declaration with the lower-cased property name and Values() = expected_vals: the value tokens in order with a
+     single space token exactly where the source has whitespace between two value tokens neither of which is one of
+     the punctuation bytes  , / : ! =  (whitespace before the first and after the last value token, around ':' and
+     ';', '{' and '}' is dropped);
    - EndRuleset;
    and then the end-of-input report; no parse error is reported.
-   MISSING: at-rules, custom properties, nested rulesets, comments, CDO/CDC (covered by the well-formed-stylesheet
-   oracle only). *)
-Theorem cssparse_wellformed_partial : forall d rules w,
-  css_lex d = LexDone (concat (map rule_toks rules) ++ optws w) -> Forall rule_ok rules ->
-  exists tr, parse_run (length (concat (map rule_units rules)) + 1) (new_parser d false) = POk tr /\
-    map view tr = concat (map rule_units rules) ++ [(GError, TError, [], [])] /\ no_err tr.
+   MISSING: at-rules, custom properties, comments, CDO/CDC, nested selectors that start with a delimiter (. & >)
+   (covered by the well-formed-stylesheet oracle only). *)
+Theorem cssparse_wellformed_partial : forall d evs w,
+  css_lex d = LexDone (concat (map ev_toks evs) ++ optws w) -> evs_ok 0 evs ->
+  exists tr, parse_run (length evs + 1) (new_parser d false) = POk tr /\
+    map view tr = map ev_unit evs ++ [(GError, TError, [], [])] /\ no_err tr.
 Proof. exact cssparse_wellformed_proof. Qed.
 Print Assumptions cssparse_wellformed_partial.
